@@ -25,6 +25,7 @@ import (
 
 func main() {
 	registerChildOps()
+	registerChildOpsExt()
 	storectl.MaybeChild()
 
 	seed := flag.Uint64("seed", 1, "seed")
